@@ -211,6 +211,11 @@ func (fc *FnCtx) call(ins ssa.Instruction, cc *ssa.CallCommon) {
 		// a parameter the callee's contract declares pure must be given a provably pure function
 		for i, p := range callee.Params {
 			if c.pureParam(p.Name()) && i < len(cc.Args) {
+				if fv, isFn := cc.Args[i].(*ssa.Function); isFn {
+					// a named function (or a closure without captured variables) passed as a value:
+					// it denotes the pure function of its own contract
+					fc.closureAxiom(nil, fv, IntLit(fc.eng.funcID(fv)))
+				}
 				g := TTrue
 				if !fc.eng.pureFuncValue(fc.fn, cc.Args[i]) {
 					g = TFalse
@@ -1227,6 +1232,12 @@ func (fc *FnCtx) dynamicCall(cc *ssa.CallCommon, args []Value, pos token.Pos) Va
 			if v, ok := fc.applyUF(fv.T, args, sig.Results().At(0).Type()); ok {
 				return v
 			}
+		}
+	}
+	// a function-typed variable captured from the enclosing function, where it is declared pure
+	if u, ok := cc.Value.(*ssa.UnOp); ok && u.Op == token.MUL && fc.eng.pureFuncValue(fc.fn, cc.Value) && sig.Results().Len() == 1 && fv.K == KLeaf {
+		if v, ok := fc.applyUF(fv.T, args, sig.Results().At(0).Type()); ok {
+			return v
 		}
 	}
 	if fc.pureMode {
